@@ -78,6 +78,11 @@ CHECKS = {
             "and that exposed states are exported before the user callback.",
             "Trusted: clang 14 front end. Declined: LP semantics of the shift pass; arithmetic of the centring formulas over all move sequences.",
             "DESIGN.md 2/C02"),
+    "C05": ("witness provenance + direction of acceptance comparisons, probe-restore pairing (post-dominance), model/placement synchronisation pairing, loop-coverage of the shift model, derived-state freshness (call-graph reachability)",
+            "Decides that moves are committed only when their evaluated value improved on the value at entry, that probes are undone, that every committed change re-synchronises the incremental models, that reordering evaluates and keeps candidates on up-to-date models, "
+            "and that the shift model covers every pin. Reports the stale-pin-offset defect of the pinned tree as a known finding.",
+            "Trusted: clang 14 front end. Declined: that the shift LP optimum never worsens the value; numeric equality with Circuit::hpwl() (C09).",
+            "DESIGN.md 2/C05"),
 }
 
 NOT_APPLICABLE = {
